@@ -10,5 +10,5 @@ package harness
 //	                         quiescent, a call (or execution) on another key has not completed
 //	C09.call-stuck           quiescent with nothing held: a call has not completed
 func init() {
-	Register(Harness{Prop: "C09", Name: "C09/mix", Run: func() { exclusiveRun("C09") }})
+	Register(Harness{Prop: "C09", Name: "C09/mix", Run: func() { exclusiveRun("C09") }, Weight: 4})
 }
